@@ -285,7 +285,8 @@ Check decode_encode_routes_labeled :
 Print Assumptions decode_encode_routes_labeled.
 
 (* (14) Flowspec (IPv4 / IPv6, plain / VPN), Route Target Constraint, EVPN route types 1-5,
-   SR Policy and MUP route types 1-4, with the NLRI VALUE universally quantified (rule components and operator lists,
+   SR Policy, MUP route types 1-4 and BGP-LS (NLRI types 1-4 and 6 at TLV level, other types
+   opaque), with the NLRI VALUE universally quantified (rule components and operator lists,
    route targets, RD / ESI / tags / MAC / IP / labels, ...): the frames of a Reach split the
    entries into consecutive chunks and from every frame the RFC reader of the family recovers the
    attributes, the next hop and exactly the entries of the chunk -- the value itself (a Flowspec
